@@ -1,4 +1,4 @@
-import Rare.Proofs.C14Table
+import Rare.Proofs.C14TableInv
 import Rare.Gen.C14
 /-!
 # C14 – Renderers never crash and draw quantities proportionally within bounds
@@ -147,18 +147,64 @@ theorem heat_rows_one_cell_per_col {L2 L10 : Rat → Rat} (h2 : LogLike L2) (h10
       cells.length = vals.length :=
   heatCells_ok h2 h10 env k vals min max
 
-/- FULL STATEMENT (not proved): after any sequence of `TableWriter.WriteRow` calls, every active row
-`i` shows `rowText colWidth rows[i]` for the CURRENT `colWidth`, hence all active rows have equal
-visible column offsets.  Proved here: the per-cell step that makes it true – a cell padded to the
-tracked width is exactly `width + 1` visible cells wide, so the offset of column `j` is
-`Σ_{i<j} (colWidth[i] + 1)` in every row drawn with that `colWidth`.  Missing: the invariant that the
-redraw loop of `WriteRow` re-draws all active rows whenever a width grows (induction over the call
-sequence through `foldlM`); it is exercised by the `tablew` correspondence op instead.  The hypotheses
-exclude texts that end inside a colour sequence or in a truncated UTF-8 sequence (then the padding
-blanks are swallowed by `StrLen` itself). -/
-theorem table_aligned_partial (env : Env) (c : Bytes) (w : Int) (hw : strLen env c ≤ w) (hc : Clean c) (ht : Terminated env c) :
-    strLen env (c ++ spaces (w - strLen env c) ++ [32]) = w + 1 :=
-  padded_width env c w hw hc ht
+/-! ## table columns line up (every sequence of `WriteRow` / `WriteFooter` calls) -/
+
+/-- the measure the renderers use (`color.StrLen`) is the visible width of the specification when
+colours are on (runes outside `ESC … m` sequences), and the number of runes when they are off (then
+nothing is an escape sequence: the bytes are shown as they are).  Widths are counted in runes: a
+double-width rune counts as one cell, as everywhere in rare. -/
+theorem strLen_is_visible_width (env : Env) (s : Bytes) :
+    (env.color = true → strLen env s = (Spec.visLen s : Nat)) ∧
+    (env.color = false → strLen env s = ((decodeUtf8 s).length : Nat)) :=
+  ⟨strLen_colour env s, strLen_plain env s⟩
+
+/-- `table_aligned`, the invariant.  From any state satisfying `TableInv` (in particular a new table),
+EVERY sequence of `WriteRow(n ≥ 0, cells…)` and `WriteFooter(idx ≥ 0, line)` calls – any rows in any order,
+rows rewritten, ragged rows, more cells than `maxCols`, rows at or beyond `maxRows`, any cell texts –
+returns without panic in a state satisfying `TableInv` again:
+
+* every written row is on the screen exactly as `writeRow` draws it with the CURRENT column widths
+  (`drawn`: when a width grows, all active rows are re-drawn, so earlier rows never keep a stale layout),
+* every displayed cell is at most as wide as its column (`fit`), column widths never shrink, never
+  more than `maxCols` cells per row and `maxRows` rows,
+* the table remembers the latest cells of every row (`rowsAfter`). -/
+theorem table_aligned (env : Env) (t : TableWriter) (vt : VirtualTerm) (h : TableInv env t vt)
+    (ops : List TableOp) (hops : ∀ op ∈ ops, op.NonNeg) :
+    ∃ t' vt', TableWriter.runOps env (t, vt) ops = .ok (t', vt') ∧ TableInv env t' vt' ∧
+      t'.maxCols = t.maxCols ∧ t'.maxRows = t.maxRows ∧ t.activeRows ≤ t'.activeRows ∧
+      (∀ k, t.colWidth.getD k 0 ≤ t'.colWidth.getD k 0) ∧ t'.rows = rowsAfter t.maxRows t.rows ops :=
+  runOps_inv env ops t vt h hops
+
+/-- a new table (`NewTable(term, maxCols ≥ 0, maxRows ≥ 0)` on an empty terminal) satisfies the invariant -/
+theorem table_new_invariant (env : Env) (mc mr : Int) (hmc : 0 ≤ mc) (hmr : 0 ≤ mr) :
+    ∃ t, TableWriter.new mc mr = .ok t ∧ TableInv env t VirtualTerm.new ∧ t.maxCols = mc ∧ t.maxRows = mr ∧
+      t.rows = List.replicate mr.toNat [] :=
+  let ⟨t, h1, h2, h3, h4, h5, _⟩ := new_inv env mc mr hmc hmr
+  ⟨t, h1, h2, h3, h4, h5⟩
+
+/-- `table_aligned`, the consequence.  In a state satisfying `TableInv`, cell `k` of EVERY written row
+`i` starts at the visible offset `Σ_{j<k} (colWidth[j] + 1)` – the same for all rows – and ends before
+column `k + 1` starts; it is one of at most `maxCols` cells of one of at most `maxRows` rows.  The cell
+texts are arbitrary (multi-byte, invalid or truncated UTF-8, colour sequences, longer than any earlier
+cell); the only proviso is that the cells BEFORE it in its own row do not end inside a colour
+sequence (an unterminated `ESC` swallows the padding blanks in `StrLen`'s own scan; `color.Wrap`ped
+cells always end in a reset). -/
+theorem table_columns_line_up (env : Env) (t : TableWriter) (vt : VirtualTerm) (h : TableInv env t vt)
+    (i : Nat) (r : List Bytes) (hr : t.rows[i]? = some r) (k : Nat) (c : Bytes) (hc : (r.take t.maxCols.toNat)[k]? = some c)
+    (hterm : ∀ j c', j < k → r[j]? = some c' → Terminated env c') :
+    ∃ pre post, vt.lines[i]? = some (pre ++ c ++ post) ∧ strLen env pre = colOffset t.colWidth k ∧
+      colOffset t.colWidth k + strLen env c < colOffset t.colWidth (k + 1) ∧
+      (k : Int) < t.maxCols ∧ (i : Int) < t.maxRows :=
+  table_cell_position env t vt h i r hr k c hc hterm
+
+/-- the same in the words of the specification: the rendered rows are `Spec.Aligned` – one increasing
+list of column offsets serves every row whose cells do not end inside a colour sequence -/
+theorem table_aligned_spec (env : Env) (t : TableWriter) (vt : VirtualTerm) (h : TableInv env t vt)
+    (rs : List (List Bytes × Bytes))
+    (hrs : ∀ p ∈ rs, ∃ (i : Nat) (r : List Bytes), t.rows[i]? = some r ∧ vt.lines[i]? = some p.2 ∧ p.1 = r.take t.maxCols.toNat ∧
+      ∀ c ∈ p.1, Terminated env c) :
+    Spec.Aligned (strLen env) rs :=
+  table_spec_aligned env t vt h rs hrs
 
 /-- '(n more)': the rows note shows exactly the rows not drawn and appears iff there are any; the
 column note of the heatmap header shows exactly the columns not drawn -/
@@ -186,6 +232,18 @@ example : (barWriteStacked ⟨false, false⟩ 0 50 [0]).toOption = some [] := by
 example : (Heatmap.headerText ⟨false, true⟩ { rowCount := 5, colCount := 10 } [[]]).toOption = some (ascii " .", 1) := by decide +kernel
 example : (Heatmap.headerText ⟨false, true⟩ { rowCount := 5, colCount := 2 } [ascii "a", ascii "b", ascii "c"]).toOption
     = some (ascii " a. (1 more)", 2) := by decide +kernel
+/-- a concrete `WriteRow`/`WriteFooter` sequence (hypotheses of `table_aligned` satisfiable): a third cell
+beyond `maxCols`, a gap row, a footer, a later row that widens column 1 (row 0 is re-drawn) and starts
+with a truncated UTF-8 sequence, a row beyond `maxRows` -/
+example : (do let t ← TableWriter.new 2 3
+              let r ← TableWriter.runOps ⟨false, true⟩ (t, VirtualTerm.new)
+                [.row 0 [ascii "ab", ascii "c", ascii "dropped"], .row 2 [ascii "x"], .footer 0 (ascii "F"),
+                 .row 1 [[0xe6, 0x97], ascii "long cell"], .row 7 [ascii "ignored"]]
+              pure (r.2.lines, r.1.colWidth) : Res (List Bytes × List Int)).toOption
+    = some ([ascii "ab c         ", [0xe6, 0x97] ++ ascii " long cell ", ascii "x  ", ascii "F"], [2, 9]) := by decide +kernel
+example : ∀ op ∈ [TableOp.row 0 [ascii "ab"], TableOp.footer 1 (ascii "F")], op.NonNeg := by
+  intro op h; simp at h; rcases h with rfl | rfl <;> simp [TableOp.NonNeg]
+example : colOffset [2, 9] 0 = 0 ∧ colOffset [2, 9] 1 = 3 ∧ colOffset [2, 9] 2 = 13 := by decide
 example : strLen ⟨true, true⟩ (27 :: ascii "[31mred" ++ 27 :: ascii "[0m") = 3 := by decide +kernel
 example : Terminated ⟨true, true⟩ (27 :: ascii "[31mred") ∧ ¬ Terminated ⟨true, true⟩ (27 :: ascii "[3") := by
   constructor
